@@ -166,7 +166,7 @@ func C13(ctx *core.Ctx) int {
 	progs = append(progs, dsl.P5()...)
 	progs = append(progs, dsl.P6()...)
 	for _, p := range dsl.P4() {
-		if strings.Contains(p.Name, "collide") || ctx.Thorough() {
+		if strings.Contains(p.Name, "collide") || strings.Contains(p.Name, "initialism") || ctx.Thorough() {
 			progs = append(progs, p)
 		}
 	}
@@ -351,17 +351,30 @@ func C13(ctx *core.Ctx) int {
 			}
 		}
 	})
+	// compilation sequences in one process; the command line under other visiting orders (c13seq.go)
+	seqProcs := c13Sequences(ctx)
+	pinned := ctx.BuildRepoBinary("pinned")
+	var orderRuns int64
+	core.Parallel(len(progs), func(i int) {
+		p := progs[i]
+		if !ctx.Thorough() && !(strings.HasPrefix(p.Name, "P5/") || strings.HasPrefix(p.Name, "P6/") || strings.HasPrefix(p.Name, "P4/") || i%7 == 0) {
+			return
+		}
+		atomic.AddInt64(&orderRuns, c13CommandLineOrders(ctx, pinned, p))
+	})
 	nOut := 0
 	st.outcomes.Range(func(k, v any) bool { nOut++; return true })
 	cov := core.Coverage{
-		"states":                          nOut,
-		"transitions":                     st.execs,
-		"traces_validated_against_impl":   st.traces,
-		"samples":                         samples.List,
-		"programs":                        len(progs),
-		"program_generator_pairs":         len(jobs),
-		"choice_points_met":               st.points,
-		"pairs_with_reduced_alternatives": st.reduced,
+		"states":                                   nOut,
+		"transitions":                              st.execs,
+		"traces_validated_against_impl":            st.traces,
+		"two_compilations_in_one_process":          map[string]any{"processes": seqProcs, "rule": "every ordered pair of the padding/option programs compiled in one process of its own, per target: the second's files = those of a process that compiled it alone"},
+		"command_line_under_other_visiting_orders": map[string]any{"runs": orderRuns, "rule": "the binary built with the seam, all six targets requested, maps visited sorted / reversed / rotated: every target's tree identical"},
+		"samples":                                  samples.List,
+		"programs":                                 len(progs),
+		"program_generator_pairs":                  len(jobs),
+		"choice_points_met":                        st.points,
+		"pairs_with_reduced_alternatives":          st.reduced,
 		"pairs_where_execution_cap_forced_deviation_bound_2": st.bounded,
 		"full_permutations_up_to_n":                          fullPerm,
 		"exhaustive":                                         st.reduced == 0 && st.bounded == 0 && degraded == 0,
